@@ -1,8 +1,11 @@
 /-
-  The union-find structure of `Model/UnionFind.lean` (`find` with path compression, `equiv`,
-  `union` by rank), part 1: the parent pointers form a forest (`WF`), the fuel of `find` is always
-  sufficient, and `find` / `equiv` / `union` act on the partition "same root" the way the
-  specification of a union-find structure says.
+  The union-find structure of `Model/UnionFind.lean`, part 1: association lists, paths to the root,
+  the invariant `WF` (the parent pointers form a forest: every node reaches a root), path
+  compression and linking on parent functions, and `find`: with enough fuel it returns the root and
+  re-points exactly the nodes of the path (`findF_spec`); under `WF` the fuel `parents.len() + 1` of
+  the public `find` is always enough, so the fuel is not observable (`findF_fuel_irrel`,
+  `findF_eq_find`); `find` keeps `WF`, the roots and `rank`.
+  Parts 2-5: `equiv`/`union`, the abstraction to classes, `subsets`, end to end.
 -/
 import DdnnfVerif.Model.UnionFind
 
